@@ -7,6 +7,11 @@ functions written from the textbook definitions with numpy and python floats onl
 below never calls pandas or tradingenv). A share of the cases also goes through `NDFrame.tearsheet`
 and `TrackRecord.tearsheet`.
 Part `scale` is metamorphic: every metric of c * levels equals the metric of levels.
+(the scaled objects are `obj * c` of the already measured objects).
+Part `derived` measures an object, obtains a second one from it with pandas operations (`obj * c`, `obj.mul(c)`,
+`obj / c`, `obj * series`, `obj.copy()` + `iloc` assignment, `obj.iloc[a:b]`) or edits the same object in place,
+and compares the metrics of the result with the reference of the values it holds; then a benchmark / risk-free
+obtained from measured objects (`series * wiggle`, rows reassigned in place) is used.
 Part `reject` applies one defect to a valid input and requires every metric to raise.
 """
 import math
@@ -35,7 +40,10 @@ RULE = ("definitions/scale/reject: Hypothesis draws n in 2..400 observations; in
         "{default 0.025, 0.05, 0.02, dyadic 1/2..1/32, 0.75, generated}. scale: c = 2^k (|k| <= 20) or 10^u, u in "
         "[-6, 6], independent constants for risk-free and benchmark. reject: one defect (NaN, value <= 0, duplicated "
         "timestamp, two rows swapped, NaT, RangeIndex, string index, integer index) in the series itself, its "
-        "risk-free or its benchmark. non-trivial = at least 3 daily levels and the returns of the first column are "
+        "risk-free or its benchmark. derived: same inputs (4 of 7 intraday), one operation in {obj*c, obj.mul(c), obj/c, "
+        "obj*series of factors 0.8..1.2, copy + 1-4 rows reassigned, same object with 1-4 rows reassigned in place, "
+        "obj.iloc[a:b]} applied after the original was measured, optionally followed by a benchmark = measured series "
+        "* wiggle, a benchmark edited in place, a risk-free = measured risk-free * wiggle. non-trivial = at least 3 daily levels and the returns of the first column are "
         "not all equal.")
 
 ASSUMPTIONS = [
@@ -577,9 +585,6 @@ def run_scale(case):
     c_bm = 2.0 ** sc["k_bm"] if pow2 else float(sc["c_bm"])
     rel = 1e-12 if pow2 else 1e-7
     res.tag("c:2^k" if pow2 else "c:<1" if c < 1 else "c:>1")
-    scaled = frame * c
-    rf_s = rf_obj * c_rf if rf_arr is not None else rf_obj
-    bm_s = bm_obj * c_bm if bm_obj is not None else None
     q = case.get("q")
     qv = 0.025 if q is None else q
 
@@ -593,9 +598,6 @@ def run_scale(case):
         rf_q = None
     refs = [ref_metrics(times, a, [qv], rf_q, bm_arr) for a in arrays]
     amp = 1.0 if pow2 else 1e4      # absolute slack: 1e-13 x magnitude for 2^k, 1e-9 x magnitude otherwise
-
-    def both(name, args_a, args_b):
-        return getattr(frame, name)(*args_a), getattr(scaled, name)(*args_b)
 
     def compare(what, a, b, key):
         try:
@@ -619,30 +621,35 @@ def run_scale(case):
             if not ok:
                 res.fail("%s column %d changes when levels are multiplied by %r: %s -> %s" % (what, j, c, fmt(u), fmt(v)))
 
-    for name in VECTOR_METRICS + SCALAR_METRICS:
-        a, b = both(name, (), ())
+    # every metric of the original first; the scaled objects are then obtained FROM the measured ones (`obj * c`),
+    # so whatever a metric leaves on an object or pandas hands over to derived objects takes part
+    qa = () if q is None else (q,)
+    plan = [(name + "()", name, "self", name) for name in VECTOR_METRICS + SCALAR_METRICS]
+    plan += [("%s(%s)" % (name, "" if q is None else repr(q)), name, "q", (name, qv))
+             for name in ("value_at_risk", "expected_shortfall")]
+    plan += [(name, name, "rf", name) for name in RATIO_METRICS]
+    if bm_obj is not None:
+        plan += [(name + "(benchmark)", name, "bm", key) for name, key in BM_METRICS]
+
+    def args_for(kind, rf, bm):
+        return {"self": (), "q": qa, "rf": () if rf is None else (rf,), "bm": (bm,)}[kind]
+
+    first = [getattr(frame, name)(*args_for(kind, rf_obj, bm_obj)) for _, name, kind, _ in plan]
+    scaled = frame * c
+    rf_s = rf_obj * c_rf if rf_arr is not None else rf_obj
+    bm_s = bm_obj * c_bm if bm_obj is not None else None
+    for (what, name, kind, key), a in zip(plan, first):
+        b = getattr(scaled, name)(*args_for(kind, rf_s, bm_s))
         if name == "nr_years":
             if a != b:
                 res.fail("nr_years changes under scaling")
             continue
-        compare(name + "()", a, b, name)
-    qa = () if q is None else (q,)
-    for name in ("value_at_risk", "expected_shortfall"):
-        a, b = both(name, qa, qa)
-        compare("%s(%s)" % (name, "" if q is None else repr(q)), a, b, (name, qv))
-    for name in RATIO_METRICS:
-        a, b = both(name, () if rf_obj is None else (rf_obj,), () if rf_obj is None else (rf_s,))
-        compare(name, a, b, name)
-    if bm_obj is not None:
-        for name, key in BM_METRICS:
-            try:
-                a, b = both(name, (bm_obj,), (bm_s,))
-            except AttributeError as exc:
-                if is_known_te(exc, ndaily, True):
-                    exclude(res, "candidate:tracking-error-two-levels")
-                    continue
-                raise
-            compare(name + "(benchmark)", a, b, key)
+        compare(what, a, b, key)
+    # the relation alone cannot see a scaled object that is measured through the original's daily levels
+    got, _ = columns_of(scaled.level(), scaled)
+    for j, col in enumerate(got):
+        if not same_vec(col, refs[j]["level"].v * c, 1e-12):
+            res.fail("level() of (obj * %r) column %d is %s, its daily levels are %s" % (c, j, fmt(col), fmt(refs[j]["level"].v * c)))
     return res
 
 
@@ -1071,10 +1078,10 @@ def probe_tracking_error_two_levels():
 FINDING_PROBES = {"D11": probe_tracking_error_two_levels}
 
 PARTS = [
-    Part("definitions", strategy=lambda tier: definition_cases(tier), run=run_definitions, quick=1500, thorough=30000),
-    Part("scale", strategy=lambda tier: scale_cases(tier), run=run_scale, quick=700, thorough=16000),
+    Part("definitions", strategy=lambda tier: definition_cases(tier), run=run_definitions, quick=1300, thorough=30000),
+    Part("scale", strategy=lambda tier: scale_cases(tier), run=run_scale, quick=600, thorough=16000),
     Part("derived", strategy=lambda tier: derived_cases(tier), run=run_derived, quick=400, thorough=10000),
-    Part("reject", strategy=lambda tier: reject_cases(tier), run=run_reject, quick=700, thorough=16000),
+    Part("reject", strategy=lambda tier: reject_cases(tier), run=run_reject, quick=600, thorough=16000),
 ]
 
 # ------------------------------------------------------------------------------------------------------------
@@ -1102,6 +1109,11 @@ PARTS = [
 #   sortino_ratio divided by volatility ............................... caught by definitions and scale
 #   run with --part scale only: drawdown = (level - cummax) / (cummax + 1e-9) ......... caught by scale
 #   run with --part scale only: returns computed as diff / (previous + 1e-10) in volatility ... caught by scale
+#
+#   seeded changes (tools/seeded.py check seeded/C16_x/patch.diff C16): C16_A, C16_B, C16_D caught by
+#   definitions / reject; C16_C (daily levels memoised in .attrs, inherited by derived objects and kept after
+#   in-place edits) was MISSED by the first version (every object was built from fresh arrays and measured once),
+#   now caught by derived (every shape-preserving operation) and by scale (level() of obj * c).
 #
 # Candidate findings on the unchanged tree (see KNOWN_CANDIDATES / FINDING_PROBES):
 #   * tracking_error / excess_returns / information_ratio / tearsheet(benchmark=...) raise AttributeError when
